@@ -2,7 +2,8 @@ import os
 from contextlib import contextmanager
 from typing import Type, Tuple, Dict, Set
 
-from yaml import SafeLoader, BaseLoader
+from yaml import SafeLoader, BaseLoader, SequenceNode
+from yaml.constructor import ConstructorError
 from entrypoints import get_group_all as get_entrypoints
 from toposort import toposort_flatten
 
@@ -18,6 +19,25 @@ from ...interfaces._partial import Partial
 
 class COBalDLoader(SafeLoader):
     """Loader with access to COBalD configuration constructors"""
+
+    def flatten_mapping(self, node):
+        # PyYAML merges the content of ``<<`` values without looking at their
+        # tags: a tag that cannot be constructed must be rejected here as well
+        for key_node, value_node in node.value:
+            if key_node.tag == "tag:yaml.org,2002:merge":
+                merged = [value_node]
+                if isinstance(value_node, SequenceNode):
+                    merged.extend(value_node.value)
+                for merged_node in merged:
+                    if merged_node.tag not in self.yaml_constructors:
+                        raise ConstructorError(
+                            None,
+                            None,
+                            "could not determine a constructor for the tag %r"
+                            % merged_node.tag,
+                            merged_node.start_mark,
+                        )
+        super().flatten_mapping(node)
 
 
 def add_constructor_plugins(entry_point_group: str, loader: Type[BaseLoader]) -> None:
